@@ -16,7 +16,8 @@ EXPL = ("Decided by an error-discipline analysis over every non-test MIR body: (
         "(finite-domain evaluation), and every poll is an R-ERR instance. (R-NO-COMMIT) no commit/abort inside the library; "
         "(R-RAII) no leak primitive in the crate and the temp-file owners hold plain owned handles, so every exit path "
         "(including `?`) closes them. NOT decided: that invariant-guarded unwraps on Options never fire after a partial "
-        "failure; LMDB abort semantics; non-monotone callbacks.")
+        "failure; LMDB abort semantics; non-monotone callbacks."
+        " (R-CANCEL, who-may-call) the cancellation callback is invoked only inside BuildOption::cancelled: any other direct poll would act on a `true` answer without returning BuildCancelled.")
 
 ERR_TYPES = ('heed::Error', 'std::io::Error', 'error::Error', 'Error')
 
